@@ -1521,6 +1521,22 @@ func ruleEncodeGuardSurvives(c *Ctx, rule string) {
 				}
 			}
 			rec(iff.Cond, 0)
+			// a branch that refuses (one side returns an error straight away) decides
+			// nothing about the encoding's content
+			refuses := false
+			for _, sc := range b.Succs {
+				if ret, ok := sc.Instrs[len(sc.Instrs)-1].(*ssa.Return); ok && len(sc.Instrs) <= 4 && len(ret.Results) > 0 {
+					last := ret.Results[len(ret.Results)-1]
+					if isErrorType(last.Type()) {
+						if k, isC := last.(*ssa.Const); !isC || !k.IsNil() {
+							refuses = true
+						}
+					}
+				}
+			}
+			if refuses {
+				continue
+			}
 			for _, fa := range reads {
 				nt := canon(fa.X.Type())
 				if nt == nil || !typesSeen[nt] {
